@@ -703,13 +703,16 @@ class SmtLibParser(object):
             self.cache.bind(token, res)
         return res
 
-    def _exit_let(self, varlist, bdy):
+    def _exit_let(self, varlist, *bdy):
         """ Cleans the execution environment when we exit the scope of a 'let' """
         for k in varlist:
             self.cache.unbind(k)
-        return bdy
+        if len(bdy) != 1:
+            raise PysmtSyntaxError("'let' expects exactly one body term, "
+                                   "%d given" % len(bdy))
+        return bdy[0]
 
-    def _exit_quantifier(self, fun: Callable, vrs: List[Tuple[str, FNode]], body: FNode) -> FNode:
+    def _exit_quantifier(self, fun: Callable, vrs: List[Tuple[str, FNode]], *body: FNode) -> FNode:
         """
         Cleans the execution environment when we exit the scope of a quantifier
         """
@@ -717,7 +720,10 @@ class SmtLibParser(object):
         for vname, var in vrs:
             self.cache.unbind(vname)
             variables.add(var)
-        return fun(variables, body)
+        if len(body) != 1:
+            raise PysmtSyntaxError("A quantifier expects exactly one body "
+                                   "term, %d given" % len(body))
+        return fun(variables, body[0])
 
     def _enter_let(self, stack: List[List[Union[Callable, FNode, List[Tuple[str, FNode]], Any]]], tokens: Tokenizer, key: str):
         """Handles a let expression by recurring on the expression and
